@@ -37,24 +37,31 @@ def _rat(rng, lo=-2, hi=2, den=(1, 2, 3, 4)):
 def cases(tier, seed):
     rng = util.rng_for(ID, tier, seed)
     out = []
-    n_per = 10 if tier == "quick" else 60
+    reps = 1 if tier == "quick" else 6
+    # covering plan: every routine x ODE order x requested number (the boundary values num <= order, num = order + 1
+    # are exactly where early exits and padding live), the remaining factors drawn at random per cell
+    plan = []
     for routine in ROUTINES:
-        for k in range(n_per):
-            order = 1 if routine == "doubling" else rng.choice([1, 1, 2])
+        if routine == "doubling":
+            cells = [(1, nd) for nd in range(1, 4 if tier == "quick" else 5)] * 3
+        elif routine == "residual":
+            cells = [(o, nn) for o in (1, 2) for nn in range(0, 7)]
+        elif routine == "via_jvp":
+            cells = [(o, nn) for o in (1, 2, 3) for nn in range(0, 7)]
+        else:
+            cells = [(o, nn) for o in (1, 2, 3) for nn in range(0, 9)] + [(1, 10), (2, 10)]
+        plan += [(routine, o, nn) for o, nn in cells] * reps
+    counters = {}
+    for routine, order, num in plan:
+        if True:
+            k = counters[routine] = counters.get(routine, -1) + 1
             d = rng.choice([1, 2, 3])
             time_dep = rng.random() < 0.7
             field = poly.random_field(
                 rng, d=d, nblocks=order, degree=rng.choice([1, 2, 3]), nterms=3, time_dep=time_dep
             )
-            if routine == "via_jvp":
-                num = rng.randint(0, 6)
-            elif routine == "doubling":
-                num = rng.randint(1, 3 if tier == "quick" else 4)  # number of doublings
-            elif routine == "residual":
-                num = rng.randint(0, 6)
-            else:
-                num = rng.randint(0, 10)
-            pytree = routine not in ("residual",) and rng.random() < 0.4
+            # the pytree promotion wrapper supports ODE orders 1 and 2 (it rejects order 3 loudly): pytrees only there
+            pytree = routine not in ("residual",) and order <= 2 and rng.random() < 0.4
             inits = [[str(_rat(rng)) for _ in range(d)] for _ in range(order)]
             case = {
                 "id": f"{routine}-{k}",
@@ -160,15 +167,19 @@ def run_case(case):
 
         if order == 1:
             vf = probdiffeq.ode(lambda u, *, t: unravel(f(rav(u), t=t)))
-        else:
+        elif order == 2:
             vf = probdiffeq.ode_order_two(lambda u, du, *, t: unravel(f(rav(u), rav(du), t=t)))
+        else:
+            vf = probdiffeq.ode_order_arbitrary(lambda *us, t: unravel(f(*[rav(u) for u in us], t=t)), num_tcoeffs_in_args=order)
         inits_in = [unravel(x) for x in inits_arr]
     else:
         rav = None
         if order == 1:
             vf = probdiffeq.ode(lambda u, *, t: f(u, t=t))
-        else:
+        elif order == 2:
             vf = probdiffeq.ode_order_two(lambda u, du, *, t: f(u, du, t=t))
+        else:
+            vf = probdiffeq.ode_order_arbitrary(lambda *us, t: f(*us, t=t), num_tcoeffs_in_args=order)
         inits_in = inits_arr
 
     tol = TOL
